@@ -1,1 +1,1624 @@
-fn main() {}
+//! C13 correspondence harness: the real `server_fn` crate from /repo's working tree
+//! (features ssr, generic, cbor, msgpack, postcard, rkyv, serde-lite; `multipart` is not available offline).
+//!
+//! All payload fields are lower-case hex of bytes (`-` = empty).  `<ty>` selects the error type:
+//! `n` = `ServerFnError<NoCustomError>`, `c` = `ServerFnError<Cust>` (`Cust(String)`: Display prints the
+//! string, FromStr rejects a leading `!`).  `<Variant>` is a Rust variant name of `ServerFnError`.
+//!
+//!   case <name>
+//!  (a) error wire format / URL form
+//!   ser <ty> <Variant> <msg>            -> <ser() bytes> <de(ser()) as Kind:msg> ## ok|fail error-roundtrip
+//!   de <ty> <bytes>                     -> <Kind:msg>                             ## ok|fail panic
+//!   tourl <ty> <base> <path> <Variant> <msg>
+//!                                       -> <url>|parse-error <decode_err(__err)> <__path> ## ok|fail url-roundtrip
+//!   decerr <ty> <str>                   -> <Kind:msg>                             ## ok|fail panic
+//!   strip <url>                         -> <url'>                                 ## ok|fail strip
+//!  (b) pipeline: `#[server]` functions, loop-back `Client` -> generic `http::Request<Bytes>` -> `run_on_server`
+//!   call <hexfn> <arg>                  -> ok <out> | err <Kind:msg>              ## ok|fail pipeline (remote == direct)
+//!   tcall <typedfn> echo <json>         -> ok <json> | err ..                     ## ok|fail <class>
+//!   tcall <typedfn> fail <json> <Variant> <msg>
+//!   tcall t_cbor_app failapp <json> <errjson>
+//!   canned <hexfn> <status> <body> <arg>-> result of run_client on a canned response ## ok|fail status-rule
+//!   rawreq <hexfn> <METHOD> <query|none> <body> -> <status> <body>                ## ok|fail server-response
+//!   stream text|bytes <chunk,chunk,..|none>  -> items seen by the caller          ## ok|fail text-stream-split-scalar
+//!  (c) corruption (testing)
+//!   corrupth <hexfn> req|res <mut> <arg>-> result                                 ## ok|fail panic
+//!   corrupt <typedfn> req|res <mut> echo|fail.. (as tcall) -> done               ## ok|fail panic
+//! <mut> = t<n> truncate to n mod (len+1) bytes | f<i> flip bit i mod 8*len | a<x> append byte x.
+#![allow(deprecated)]
+use bytes::Bytes;
+use futures::{executor::block_on, Stream, StreamExt};
+use http::{Method, Request, Response};
+use hx_common::*;
+use server_fn::{
+    client::Client,
+    codec::*,
+    error::{FromServerFnError, NoCustomError, ServerFnErrorErr, ServerFnUrlError},
+    request::{ClientReq, Req},
+    response::{generic::Body, ClientRes},
+    server::Server,
+    ContentType, Decodes, Encodes, Format, FormatType, Http, ServerFn, ServerFnError, ServerFnTraitObj,
+};
+use server_fn_macro_default::server;
+use std::{
+    borrow::Cow,
+    cell::RefCell,
+    collections::HashMap,
+    fmt::Display,
+    future::Future,
+    panic::{catch_unwind, AssertUnwindSafe},
+    pin::Pin,
+    str::FromStr,
+    sync::{Mutex, OnceLock},
+    task::{Context, Poll},
+};
+
+// ------------------------------------------------------------------ error types
+
+#[derive(Debug, Clone, PartialEq, Eq)]
+pub struct Cust(pub String);
+impl Display for Cust {
+    fn fmt(&self, f: &mut std::fmt::Formatter<'_>) -> std::fmt::Result {
+        f.write_str(&self.0)
+    }
+}
+impl FromStr for Cust {
+    type Err = ();
+    fn from_str(s: &str) -> Result<Self, ()> {
+        if s.starts_with('!') {
+            Err(())
+        } else {
+            Ok(Cust(s.to_string()))
+        }
+    }
+}
+
+/// variant names in the order of `enum ServerFnError` (index = `k` of the hex body protocol)
+const VARIANTS: [&str; 10] = [
+    "WrappedServerError",
+    "Registration",
+    "Request",
+    "Response",
+    "ServerError",
+    "MiddlewareError",
+    "Deserialization",
+    "Serialization",
+    "Args",
+    "MissingArg",
+];
+
+fn mk_plain<C>(variant: &str, msg: String) -> Option<ServerFnError<C>> {
+    Some(match variant {
+        "Registration" => ServerFnError::Registration(msg),
+        "Request" => ServerFnError::Request(msg),
+        "Response" => ServerFnError::Response(msg),
+        "ServerError" => ServerFnError::ServerError(msg),
+        "MiddlewareError" => ServerFnError::MiddlewareError(msg),
+        "Deserialization" => ServerFnError::Deserialization(msg),
+        "Serialization" => ServerFnError::Serialization(msg),
+        "Args" => ServerFnError::Args(msg),
+        "MissingArg" => ServerFnError::MissingArg(msg),
+        _ => return None,
+    })
+}
+
+fn mk_n(variant: &str, msg: String) -> Option<ServerFnError<NoCustomError>> {
+    if variant == "WrappedServerError" {
+        Some(ServerFnError::WrappedServerError(NoCustomError))
+    } else {
+        mk_plain(variant, msg)
+    }
+}
+
+fn mk_c(variant: &str, msg: String) -> Option<ServerFnError<Cust>> {
+    if variant == "WrappedServerError" {
+        Some(ServerFnError::WrappedServerError(Cust(msg)))
+    } else {
+        mk_plain(variant, msg)
+    }
+}
+
+fn show_err<C: Display>(e: &ServerFnError<C>) -> String {
+    let (k, m) = match e {
+        ServerFnError::WrappedServerError(c) => ("WrappedServerError", c.to_string()),
+        ServerFnError::Registration(m) => ("Registration", m.clone()),
+        ServerFnError::Request(m) => ("Request", m.clone()),
+        ServerFnError::Response(m) => ("Response", m.clone()),
+        ServerFnError::ServerError(m) => ("ServerError", m.clone()),
+        ServerFnError::MiddlewareError(m) => ("MiddlewareError", m.clone()),
+        ServerFnError::Deserialization(m) => ("Deserialization", m.clone()),
+        ServerFnError::Serialization(m) => ("Serialization", m.clone()),
+        ServerFnError::Args(m) => ("Args", m.clone()),
+        ServerFnError::MissingArg(m) => ("MissingArg", m.clone()),
+    };
+    format!("{k}:{}", hex(m.as_bytes()))
+}
+
+fn show_sfe_err(e: &ServerFnErrorErr) -> String {
+    let (k, m) = match e {
+        ServerFnErrorErr::Registration(m) => ("Registration", m),
+        ServerFnErrorErr::UnsupportedRequestMethod(m) => ("UnsupportedRequestMethod", m),
+        ServerFnErrorErr::Request(m) => ("Request", m),
+        ServerFnErrorErr::ServerError(m) => ("ServerError", m),
+        ServerFnErrorErr::MiddlewareError(m) => ("MiddlewareError", m),
+        ServerFnErrorErr::Deserialization(m) => ("Deserialization", m),
+        ServerFnErrorErr::Serialization(m) => ("Serialization", m),
+        ServerFnErrorErr::Args(m) => ("Args", m),
+        ServerFnErrorErr::MissingArg(m) => ("MissingArg", m),
+        ServerFnErrorErr::Response(m) => ("Response", m),
+    };
+    format!("{k}:{}", hex(m.as_bytes()))
+}
+
+/// does the custom payload survive Display -> FromStr (the hypothesis of the round-trip property)
+fn custom_law<C: Display + FromStr + PartialEq>(e: &ServerFnError<C>) -> bool {
+    match e {
+        ServerFnError::WrappedServerError(c) => C::from_str(&c.to_string()).ok().as_ref() == Some(c),
+        _ => true,
+    }
+}
+
+/// an application error type with its own (JSON) wire format
+#[derive(Debug, Clone, PartialEq, serde::Serialize, serde::Deserialize)]
+pub enum AppErr {
+    Sfe(ServerFnErrorErr),
+    Custom { code: i32, msg: String },
+}
+impl Display for AppErr {
+    fn fmt(&self, f: &mut std::fmt::Formatter<'_>) -> std::fmt::Result {
+        write!(f, "{self:?}")
+    }
+}
+impl FromServerFnError for AppErr {
+    type Encoder = JsonEncoding;
+    fn from_server_fn_error(value: ServerFnErrorErr) -> Self {
+        AppErr::Sfe(value)
+    }
+}
+
+// ------------------------------------------------------------------ loop-back client / server
+
+pub enum LoopBody {
+    Bytes(Bytes),
+    Stream(Pin<Box<dyn Stream<Item = Bytes> + Send>>),
+}
+
+/// what the client half builds (`ClientReq`), modelled on request/reqwest.rs
+pub struct LoopReq {
+    method: Method,
+    path: String,
+    query: Option<String>,
+    content_type: String,
+    accepts: String,
+    body: LoopBody,
+}
+
+fn body_method<E: FromServerFnError>(m: &Method) -> Result<(), E> {
+    if *m == Method::POST || *m == Method::PUT || *m == Method::PATCH {
+        Ok(())
+    } else {
+        Err(E::from_server_fn_error(ServerFnErrorErr::UnsupportedRequestMethod(m.to_string())))
+    }
+}
+
+impl<E: FromServerFnError> ClientReq<E> for LoopReq {
+    type FormData = ();
+
+    fn try_new_req_query(path: &str, content_type: &str, accepts: &str, query: &str, method: Method) -> Result<Self, E> {
+        Ok(LoopReq {
+            method,
+            path: path.into(),
+            query: Some(query.into()),
+            content_type: content_type.into(),
+            accepts: accepts.into(),
+            body: LoopBody::Bytes(Bytes::new()),
+        })
+    }
+
+    fn try_new_req_text(path: &str, content_type: &str, accepts: &str, body: String, method: Method) -> Result<Self, E> {
+        body_method::<E>(&method)?;
+        Ok(LoopReq {
+            method,
+            path: path.into(),
+            query: None,
+            content_type: content_type.into(),
+            accepts: accepts.into(),
+            body: LoopBody::Bytes(Bytes::from(body)),
+        })
+    }
+
+    fn try_new_req_bytes(path: &str, content_type: &str, accepts: &str, body: Bytes, method: Method) -> Result<Self, E> {
+        body_method::<E>(&method)?;
+        Ok(LoopReq {
+            method,
+            path: path.into(),
+            query: None,
+            content_type: content_type.into(),
+            accepts: accepts.into(),
+            body: LoopBody::Bytes(body),
+        })
+    }
+
+    fn try_new_req_form_data(_: &str, _: &str, _: &str, _: (), method: Method) -> Result<Self, E> {
+        Err(E::from_server_fn_error(ServerFnErrorErr::UnsupportedRequestMethod(format!("form data {method}"))))
+    }
+
+    fn try_new_req_multipart(_: &str, _: &str, _: (), method: Method) -> Result<Self, E> {
+        Err(E::from_server_fn_error(ServerFnErrorErr::UnsupportedRequestMethod(format!("multipart {method}"))))
+    }
+
+    fn try_new_req_streaming(
+        path: &str,
+        accepts: &str,
+        content_type: &str,
+        body: impl Stream<Item = Bytes> + Send + 'static,
+        method: Method,
+    ) -> Result<Self, E> {
+        body_method::<E>(&method)?;
+        Ok(LoopReq {
+            method,
+            path: path.into(),
+            query: None,
+            content_type: content_type.into(),
+            accepts: accepts.into(),
+            body: LoopBody::Stream(Box::pin(body)),
+        })
+    }
+}
+
+/// what the client half receives (`ClientRes`); a streamed body is buffered chunk by chunk
+pub struct LoopRes {
+    status: u16,
+    location: String,
+    chunks: Vec<Result<Bytes, Bytes>>,
+}
+
+impl LoopRes {
+    fn concat(self) -> Result<Bytes, Bytes> {
+        let mut v = Vec::new();
+        for c in self.chunks {
+            v.extend_from_slice(&c?);
+        }
+        Ok(Bytes::from(v))
+    }
+}
+
+impl<E: FromServerFnError> ClientRes<E> for LoopRes {
+    async fn try_into_string(self) -> Result<String, E> {
+        let b = self.concat().map_err(E::de)?;
+        String::from_utf8(b.to_vec())
+            .map_err(|e| E::from_server_fn_error(ServerFnErrorErr::Deserialization(e.to_string())))
+    }
+
+    async fn try_into_bytes(self) -> Result<Bytes, E> {
+        self.concat().map_err(E::de)
+    }
+
+    fn try_into_stream(self) -> Result<impl Stream<Item = Result<Bytes, Bytes>> + Send + Sync + 'static, E> {
+        Ok(futures::stream::iter(self.chunks))
+    }
+
+    fn status(&self) -> u16 {
+        self.status
+    }
+
+    fn status_text(&self) -> String {
+        self.status.to_string()
+    }
+
+    fn location(&self) -> String {
+        self.location.clone()
+    }
+
+    fn has_redirect(&self) -> bool {
+        false
+    }
+}
+
+/// server-side request: the generic back end's `http::Request<Bytes>`; the newtype exists only because
+/// `Server::Request::WebsocketResponse` must equal `Server::Response` (= `Response<generic::Body>`), every
+/// method delegates to the real `impl Req for http::Request<Bytes>` (request/generic.rs)
+pub struct SReq(pub Request<Bytes>);
+
+impl<E, I, O> Req<E, I, O> for SReq
+where
+    E: FromServerFnError + Send,
+    I: FromServerFnError + Send,
+    O: FromServerFnError + Send,
+{
+    type WebsocketResponse = Response<Body>;
+
+    fn as_query(&self) -> Option<&str> {
+        <Request<Bytes> as Req<E, I, O>>::as_query(&self.0)
+    }
+
+    fn to_content_type(&self) -> Option<Cow<'_, str>> {
+        <Request<Bytes> as Req<E, I, O>>::to_content_type(&self.0)
+    }
+
+    fn accepts(&self) -> Option<Cow<'_, str>> {
+        <Request<Bytes> as Req<E, I, O>>::accepts(&self.0)
+    }
+
+    fn referer(&self) -> Option<Cow<'_, str>> {
+        <Request<Bytes> as Req<E, I, O>>::referer(&self.0)
+    }
+
+    async fn try_into_bytes(self) -> Result<Bytes, E> {
+        <Request<Bytes> as Req<E, I, O>>::try_into_bytes(self.0).await
+    }
+
+    async fn try_into_string(self) -> Result<String, E> {
+        <Request<Bytes> as Req<E, I, O>>::try_into_string(self.0).await
+    }
+
+    fn try_into_stream(self) -> Result<impl Stream<Item = Result<Bytes, Bytes>> + Send + 'static, E> {
+        <Request<Bytes> as Req<E, I, O>>::try_into_stream(self.0)
+    }
+
+    async fn try_into_websocket(
+        self,
+    ) -> Result<
+        (
+            impl Stream<Item = Result<Bytes, Bytes>> + Send + 'static,
+            impl futures::Sink<Result<Bytes, Bytes>> + Send + 'static,
+            Self::WebsocketResponse,
+        ),
+        E,
+    > {
+        Err::<
+            (
+                futures::stream::Once<std::future::Ready<Result<Bytes, Bytes>>>,
+                futures::sink::Drain<Result<Bytes, Bytes>>,
+                Self::WebsocketResponse,
+            ),
+            _,
+        >(E::from_server_fn_error(ServerFnErrorErr::Response(
+            "Websockets are not supported on this platform.".to_string(),
+        )))
+    }
+}
+
+pub struct LoopServer;
+
+impl<E, I, O> Server<E, I, O> for LoopServer
+where
+    E: FromServerFnError + Send + Sync,
+    I: FromServerFnError + Send + Sync,
+    O: FromServerFnError + Send + Sync,
+{
+    type Request = SReq;
+    type Response = Response<Body>;
+
+    fn spawn(_future: impl Future<Output = ()> + Send + 'static) -> Result<(), E> {
+        Err(E::from_server_fn_error(ServerFnErrorErr::Request("no executor in the loop-back server".into())))
+    }
+}
+
+#[derive(Clone, Debug)]
+enum Mutn {
+    Trunc(usize),
+    Flip(usize),
+    Append(u8),
+}
+
+fn parse_mut(s: &str) -> Option<Mutn> {
+    let (k, n) = s.split_at(s.char_indices().nth(1).map(|x| x.0).unwrap_or(s.len()));
+    let n: usize = n.parse().ok()?;
+    match k {
+        "t" => Some(Mutn::Trunc(n)),
+        "f" => Some(Mutn::Flip(n)),
+        "a" => Some(Mutn::Append((n % 256) as u8)),
+        _ => None,
+    }
+}
+
+fn mutate(m: &Mutn, b: &[u8]) -> Vec<u8> {
+    let mut v = b.to_vec();
+    match m {
+        Mutn::Trunc(n) => v.truncate(n % (b.len() + 1)),
+        Mutn::Flip(i) => {
+            if !v.is_empty() {
+                let j = i % (8 * v.len());
+                v[j / 8] ^= 1 << (j % 8);
+            }
+        }
+        Mutn::Append(x) => v.push(*x),
+    }
+    v
+}
+
+#[derive(Default)]
+struct Transport {
+    canned: Option<(u16, Vec<u8>)>,
+    req_mut: Option<Mutn>,
+    res_mut: Option<Mutn>,
+}
+
+thread_local! {
+    static TRANSPORT: RefCell<Transport> = RefCell::new(Transport::default());
+}
+
+type Handler = ServerFnTraitObj<SReq, Response<Body>>;
+
+fn registry() -> &'static HashMap<(String, Method), Handler> {
+    static REG: OnceLock<HashMap<(String, Method), Handler>> = OnceLock::new();
+    REG.get_or_init(|| {
+        server_fn::inventory::iter::<Handler>
+            .into_iter()
+            .map(|obj| ((obj.path().to_string(), obj.method()), obj.clone()))
+            .collect()
+    })
+}
+
+const NOT_FOUND: &str = "no server function registered for this path and method";
+
+/// route a generic request like the axum/actix integrations do: by (path, method)
+async fn dispatch(req: Request<Bytes>) -> Response<Body> {
+    let key = (req.uri().path().to_string(), req.method().clone());
+    match registry().get(&key) {
+        Some(obj) => obj.clone().handler(SReq(req)).await,
+        None => Response::builder().status(400).body(Body::from(NOT_FOUND.to_string())).unwrap(),
+    }
+}
+
+async fn collect_body(body: Body) -> Vec<Result<Bytes, Bytes>> {
+    match body {
+        Body::Sync(b) => vec![Ok(b)],
+        Body::Async(mut s) => {
+            let mut v = vec![];
+            while let Some(item) = s.next().await {
+                // a mid-stream error travels as its `Display` text (ServerFnErrorWrapper prints `ser()`)
+                v.push(item.map_err(|e| Bytes::from(e.to_string())));
+            }
+            v
+        }
+    }
+}
+
+async fn transport<E: FromServerFnError>(req: LoopReq) -> Result<LoopRes, E> {
+    let (canned, req_mut, res_mut) = TRANSPORT.with(|t| {
+        let t = t.borrow();
+        (t.canned.clone(), t.req_mut.clone(), t.res_mut.clone())
+    });
+    let LoopReq { method, path, mut query, content_type, accepts, body } = req;
+    let mut body: Vec<u8> = match body {
+        LoopBody::Bytes(b) => b.to_vec(),
+        LoopBody::Stream(mut s) => {
+            let mut v = vec![];
+            while let Some(c) = s.next().await {
+                v.extend_from_slice(&c);
+            }
+            v
+        }
+    };
+    if let Some(m) = &req_mut {
+        match &mut query {
+            Some(q) => *q = String::from_utf8_lossy(&mutate(m, q.as_bytes())).into_owned(),
+            None => body = mutate(m, &body),
+        }
+    }
+    if let Some((status, b)) = canned {
+        return Ok(LoopRes { status, location: String::new(), chunks: vec![Ok(Bytes::from(b))] });
+    }
+    let uri = match &query {
+        Some(q) => format!("{path}?{q}"),
+        None => path.clone(),
+    };
+    let request = Request::builder()
+        .method(method)
+        .uri(uri)
+        .header(http::header::CONTENT_TYPE, content_type)
+        .header(http::header::ACCEPT, accepts)
+        .body(Bytes::from(body))
+        .map_err(|e| E::from_server_fn_error(ServerFnErrorErr::Request(e.to_string())))?;
+    let res = dispatch(request).await;
+    let status = res.status().as_u16();
+    let location = res
+        .headers()
+        .get(http::header::LOCATION)
+        .and_then(|v| v.to_str().ok())
+        .unwrap_or("")
+        .to_string();
+    let mut chunks = collect_body(res.into_body()).await;
+    if let Some(m) = &res_mut {
+        if let [Ok(b)] = chunks.as_slice() {
+            chunks = vec![Ok(Bytes::from(mutate(m, b)))];
+        }
+    }
+    Ok(LoopRes { status, location, chunks })
+}
+
+pub struct LoopClient;
+
+impl<E, I, O> Client<E, I, O> for LoopClient
+where
+    E: FromServerFnError + Send,
+    I: FromServerFnError,
+    O: FromServerFnError,
+{
+    type Request = LoopReq;
+    type Response = LoopRes;
+
+    fn send(req: Self::Request) -> impl Future<Output = Result<Self::Response, E>> + Send {
+        transport::<E>(req)
+    }
+
+    #[allow(unreachable_code)]
+    fn open_websocket(
+        _path: &str,
+    ) -> impl Future<
+        Output = Result<
+            (
+                impl Stream<Item = Result<Bytes, Bytes>> + Send + 'static,
+                impl futures::Sink<Result<Bytes, Bytes>> + Send + 'static,
+            ),
+            E,
+        >,
+    > + Send {
+        async {
+            Err::<
+                (
+                    futures::stream::Once<std::future::Ready<Result<Bytes, Bytes>>>,
+                    futures::sink::Drain<Result<Bytes, Bytes>>,
+                ),
+                _,
+            >(E::from_server_fn_error(ServerFnErrorErr::Request("no websocket".into())))
+        }
+    }
+
+    fn spawn(_future: impl Future<Output = ()> + Send + 'static) {}
+}
+
+// ------------------------------------------------------------------ a codec the model can compute: hex text
+
+pub struct HexEncoding;
+impl ContentType for HexEncoding {
+    const CONTENT_TYPE: &'static str = "text/x-hex";
+}
+impl FormatType for HexEncoding {
+    const FORMAT_TYPE: Format = Format::Text;
+}
+pub trait AsRaw: Sized {
+    fn raw(&self) -> &[u8];
+    fn from_raw(v: Vec<u8>) -> Self;
+}
+fn plain_hex(b: &[u8]) -> String {
+    b.iter().map(|x| format!("{x:02x}")).collect()
+}
+fn plain_unhex(b: &[u8]) -> Option<Vec<u8>> {
+    if b.len() % 2 != 0 {
+        return None;
+    }
+    b.chunks(2)
+        .map(|p| Some((char::from(p[0]).to_digit(16)? * 16 + char::from(p[1]).to_digit(16)?) as u8))
+        .collect()
+}
+impl<T: AsRaw> Encodes<T> for HexEncoding {
+    type Error = String;
+    fn encode(v: &T) -> Result<Bytes, String> {
+        Ok(Bytes::from(plain_hex(v.raw())))
+    }
+}
+impl<T: AsRaw> Decodes<T> for HexEncoding {
+    type Error = String;
+    fn decode(b: Bytes) -> Result<T, String> {
+        plain_unhex(&b).map(T::from_raw).ok_or_else(|| "bad hex".to_string())
+    }
+}
+pub type HexPost = Post<HexEncoding>;
+pub type HexPatch = Patch<HexEncoding>;
+pub type HexPut = Put<HexEncoding>;
+
+#[derive(Debug, Clone, PartialEq)]
+pub struct Raw(pub Vec<u8>);
+impl AsRaw for Raw {
+    fn raw(&self) -> &[u8] {
+        &self.0
+    }
+    fn from_raw(v: Vec<u8>) -> Self {
+        Raw(v)
+    }
+}
+
+/// `E <k> <utf8 msg>` fails with the k-th String-payload variant, anything else echoes
+fn hex_body(data: Vec<u8>) -> Result<Raw, ServerFnError> {
+    if data.len() >= 2 && data[0] == b'E' {
+        let k = data[1] as usize;
+        if (1..VARIANTS.len()).contains(&k) {
+            if let Ok(m) = String::from_utf8(data[2..].to_vec()) {
+                return Err(mk_n(VARIANTS[k], m).unwrap());
+            }
+        }
+    }
+    Ok(Raw(data))
+}
+
+macro_rules! hex_fn {
+    ($f:ident, $S:ident, $ep:literal, $enc:ident) => {
+        #[server(name = $S, prefix = "/api", endpoint = $ep, input = $enc, output = $enc, client = LoopClient, server = LoopServer)]
+        pub async fn $f(data: Vec<u8>) -> Result<Raw, ServerFnError> {
+            hex_body(data)
+        }
+        impl AsRaw for $S {
+            fn raw(&self) -> &[u8] {
+                &self.data
+            }
+            fn from_raw(v: Vec<u8>) -> Self {
+                $S { data: v }
+            }
+        }
+    };
+}
+hex_fn!(hx_post, HxPost, "hx_post", HexPost);
+hex_fn!(hx_patch, HxPatch, "hx_patch", HexPatch);
+hex_fn!(hx_put, HxPut, "hx_put", HexPut);
+
+// ------------------------------------------------------------------ typed functions over the real codecs
+
+#[derive(
+    Clone,
+    Debug,
+    PartialEq,
+    serde::Serialize,
+    serde::Deserialize,
+    rkyv::Archive,
+    rkyv::Serialize,
+    rkyv::Deserialize,
+    serde_lite::Serialize,
+    serde_lite::Deserialize,
+)]
+pub struct Inner {
+    pub n: i64,
+    pub name: String,
+    pub flag: bool,
+}
+
+#[derive(
+    Clone,
+    Debug,
+    PartialEq,
+    serde::Serialize,
+    serde::Deserialize,
+    rkyv::Archive,
+    rkyv::Serialize,
+    rkyv::Deserialize,
+    serde_lite::Serialize,
+    serde_lite::Deserialize,
+)]
+pub struct Payload {
+    pub id: u64,
+    pub small: i8,
+    pub text: String,
+    pub opt: Option<String>,
+    pub list: Vec<Inner>,
+    pub nums: Vec<u32>,
+    pub nested: Inner,
+}
+
+fn typed_body<E>(p: Payload, mode: u8, kind: u8, msg: String, mk: impl Fn(&str, String) -> E) -> Result<Payload, E> {
+    if mode == 0 {
+        Ok(p)
+    } else {
+        Err(mk(VARIANTS[kind as usize % VARIANTS.len()], msg))
+    }
+}
+
+macro_rules! typed_fn {
+    ($f:ident, $S:ident, $ep:literal, $in:ident, $out:ident) => {
+        #[server(name = $S, prefix = "/api", endpoint = $ep, input = $in, output = $out, client = LoopClient, server = LoopServer)]
+        pub async fn $f(p: Payload, mode: u8, kind: u8, msg: String) -> Result<Payload, ServerFnError> {
+            typed_body(p, mode, kind, msg, |v, m| mk_n(v, m).unwrap())
+        }
+    };
+}
+typed_fn!(t_json, TJson, "t_json", Json, Json);
+typed_fn!(t_geturl, TGeturl, "t_geturl", GetUrl, Json);
+typed_fn!(t_deleteurl, TDeleteurl, "t_deleteurl", DeleteUrl, Json);
+typed_fn!(t_patchurl, TPatchurl, "t_patchurl", PatchUrl, Json);
+typed_fn!(t_puturl, TPuturl, "t_puturl", PutUrl, Json);
+typed_fn!(t_cbor, TCbor, "t_cbor", Cbor, Cbor);
+typed_fn!(t_msgpack, TMsgpack, "t_msgpack", MsgPack, MsgPack);
+typed_fn!(t_postcard, TPostcard, "t_postcard", Postcard, Postcard);
+typed_fn!(t_rkyv, TRkyv, "t_rkyv", Rkyv, Rkyv);
+typed_fn!(t_serdelite, TSerdelite, "t_serdelite", SerdeLite, SerdeLite);
+typed_fn!(t_patchjson, TPatchjson, "t_patchjson", PatchJson, PatchJson);
+typed_fn!(t_putcbor, TPutcbor, "t_putcbor", PutCbor, PutCbor);
+typed_fn!(t_json_cbor, TJsonCbor, "t_json_cbor", Json, Cbor);
+typed_fn!(t_geturl_rkyv, TGeturlRkyv, "t_geturl_rkyv", GetUrl, Rkyv);
+typed_fn!(t_postcard_msgpack, TPostcardMsgpack, "t_postcard_msgpack", Postcard, MsgPack);
+
+/// the macro's defaults: `Http<PostUrl, Json>`
+#[server(name = TPosturl, prefix = "/api", endpoint = "t_posturl", client = LoopClient, server = LoopServer)]
+pub async fn t_posturl(p: Payload, mode: u8, kind: u8, msg: String) -> Result<Payload, ServerFnError> {
+    typed_body(p, mode, kind, msg, |v, m| mk_n(v, m).unwrap())
+}
+
+/// a declared error type other than `ServerFnError`, with its own encoder
+#[server(name = TCborApp, prefix = "/api", endpoint = "t_cbor_app", input = Cbor, output = Json, client = LoopClient, server = LoopServer)]
+pub async fn t_cbor_app(p: Payload, mode: u8, code: i32, msg: String) -> Result<Payload, AppErr> {
+    if mode == 0 {
+        Ok(p)
+    } else {
+        Err(AppErr::Custom { code, msg })
+    }
+}
+
+// ------------------------------------------------------------------ streaming
+
+#[server(name = TextEcho, prefix = "/api", endpoint = "text_echo", input = StreamingText, output = StreamingText, client = LoopClient, server = LoopServer)]
+pub async fn text_echo(input: TextStream) -> Result<TextStream, ServerFnError> {
+    Ok(input)
+}
+
+/// `Streaming` as an input encoding needs an argument type that is itself a `Stream<Item = Bytes>`:
+/// written by hand (the macro's argument struct is not a stream)
+pub struct BytesEcho(Mutex<Pin<Box<dyn Stream<Item = Bytes> + Send>>>);
+impl Stream for BytesEcho {
+    type Item = Bytes;
+    fn poll_next(mut self: Pin<&mut Self>, cx: &mut Context<'_>) -> Poll<Option<Bytes>> {
+        self.0.get_mut().unwrap().as_mut().poll_next(cx)
+    }
+}
+impl From<ByteStream> for BytesEcho {
+    fn from(s: ByteStream) -> Self {
+        BytesEcho(Mutex::new(Box::pin(s.into_inner().map(|c| match c {
+            Ok(b) => b,
+            Err(b) => b,
+        }))))
+    }
+}
+impl ServerFn for BytesEcho {
+    const PATH: &'static str = "/api/bytes_echo";
+    type Client = LoopClient;
+    type Server = LoopServer;
+    type Protocol = Http<Streaming, Streaming>;
+    type Output = ByteStream;
+    type Error = ServerFnError;
+    type InputStreamError = ServerFnError;
+    type OutputStreamError = ServerFnError;
+    fn run_body(self) -> impl Future<Output = Result<ByteStream, ServerFnError>> + Send {
+        async move { Ok(ByteStream::from(self)) }
+    }
+}
+server_fn::inventory::submit! {{
+    ServerFnTraitObj::new::<BytesEcho>(|req| Box::pin(BytesEcho::run_on_server(req)))
+}}
+
+fn items_text(s: TextStream) -> Vec<Result<Vec<u8>, String>> {
+    block_on(s.into_inner().collect::<Vec<_>>())
+        .into_iter()
+        .map(|i| i.map(String::into_bytes).map_err(|e| show_err(&e)))
+        .collect()
+}
+
+fn show_items(items: &[Result<Vec<u8>, String>]) -> String {
+    if items.is_empty() {
+        return "-".into();
+    }
+    items
+        .iter()
+        .map(|i| match i {
+            Ok(b) => format!("o{}", hex(b)),
+            Err(e) => format!("e{e}"),
+        })
+        .collect::<Vec<_>>()
+        .join(",")
+}
+
+// ------------------------------------------------------------------ ops
+
+fn guard<T>(f: impl FnOnce() -> T) -> Option<T> {
+    let r = catch_unwind(AssertUnwindSafe(f));
+    TRANSPORT.with(|t| *t.borrow_mut() = Transport::default());
+    r.ok()
+}
+
+fn show_hex_res(r: &Result<Raw, ServerFnError>) -> String {
+    match r {
+        Ok(Raw(b)) => format!("ok {}", hex(b)),
+        Err(e) => format!("err {}", show_err(e)),
+    }
+}
+
+fn show_typed_res(r: &Result<Payload, ServerFnError>) -> String {
+    match r {
+        Ok(p) => format!("ok {}", hex(serde_json::to_string(p).unwrap().as_bytes())),
+        Err(e) => format!("err {}", show_err(e)),
+    }
+}
+
+fn show_app_res(r: &Result<Payload, AppErr>) -> String {
+    match r {
+        Ok(p) => format!("ok {}", hex(serde_json::to_string(p).unwrap().as_bytes())),
+        Err(AppErr::Sfe(e)) => format!("err appsfe:{}", show_sfe_err(e)),
+        Err(e) => format!("err app:{}", hex(serde_json::to_string(e).unwrap().as_bytes())),
+    }
+}
+
+fn hex_remote(f: &str, data: Vec<u8>) -> Option<Result<Raw, ServerFnError>> {
+    Some(match f {
+        "hx_post" => block_on(HxPost { data }.run_on_client()),
+        "hx_patch" => block_on(HxPatch { data }.run_on_client()),
+        "hx_put" => block_on(HxPut { data }.run_on_client()),
+        _ => return None,
+    })
+}
+
+fn hex_direct(f: &str, data: Vec<u8>) -> Option<Result<Raw, ServerFnError>> {
+    Some(match f {
+        "hx_post" => block_on(hx_post(data)),
+        "hx_patch" => block_on(hx_patch(data)),
+        "hx_put" => block_on(hx_put(data)),
+        _ => return None,
+    })
+}
+
+macro_rules! typed_dispatch {
+    ($name:expr, $p:expr, $mode:expr, $kind:expr, $msg:expr; $( $f:ident => $S:ident ),* ) => {
+        match $name {
+            $( stringify!($f) => Some((
+                block_on($S { p: $p.clone(), mode: $mode, kind: $kind, msg: $msg.clone() }.run_on_client()),
+                block_on($f($p.clone(), $mode, $kind, $msg.clone())),
+            )), )*
+            _ => None,
+        }
+    };
+}
+
+/// (remote, direct)
+fn typed_both(
+    name: &str,
+    p: &Payload,
+    mode: u8,
+    kind: u8,
+    msg: &String,
+) -> Option<(Result<Payload, ServerFnError>, Result<Payload, ServerFnError>)> {
+    typed_dispatch!(name, p, mode, kind, msg;
+        t_json => TJson, t_geturl => TGeturl, t_posturl => TPosturl, t_deleteurl => TDeleteurl,
+        t_patchurl => TPatchurl, t_puturl => TPuturl, t_cbor => TCbor, t_msgpack => TMsgpack,
+        t_postcard => TPostcard, t_rkyv => TRkyv, t_serdelite => TSerdelite, t_patchjson => TPatchjson,
+        t_putcbor => TPutcbor, t_json_cbor => TJsonCbor, t_geturl_rkyv => TGeturlRkyv,
+        t_postcard_msgpack => TPostcardMsgpack)
+}
+
+const TYPED: &[&str] = &[
+    "t_json", "t_geturl", "t_posturl", "t_deleteurl", "t_patchurl", "t_puturl", "t_cbor", "t_msgpack", "t_postcard",
+    "t_rkyv", "t_serdelite", "t_patchjson", "t_putcbor", "t_json_cbor", "t_geturl_rkyv", "t_postcard_msgpack",
+];
+/// input encodings whose client and server halves disagree on where the arguments travel
+const SLOT_MISMATCH: &[&str] = &["t_patchurl", "t_puturl"];
+
+/// the arguments of a `tcall`/`corrupt` op after the function name
+enum TMode {
+    Echo,
+    Fail(u8, String),
+    FailApp(i32, String),
+}
+
+fn parse_tmode(fn_name: &str, w: &[&str]) -> Option<(Payload, TMode)> {
+    let p: Payload = serde_json::from_slice(&unhex(w.get(1)?)?).ok()?;
+    let m = match (w[0], w.len()) {
+        ("echo", 2) => TMode::Echo,
+        ("fail", 4) if fn_name != "t_cbor_app" => {
+            let k = VARIANTS.iter().position(|v| v == &w[2])?;
+            TMode::Fail(k as u8, unhex_str(w[3])?)
+        }
+        ("failapp", 3) if fn_name == "t_cbor_app" => match serde_json::from_slice::<AppErr>(&unhex(w[2])?).ok()? {
+            AppErr::Custom { code, msg } => TMode::FailApp(code, msg),
+            _ => return None,
+        },
+        _ => return None,
+    };
+    Some((p, m))
+}
+
+/// (remote observable, direct observable)
+fn run_typed(fn_name: &str, p: &Payload, m: &TMode) -> Option<(String, String)> {
+    if fn_name == "t_cbor_app" {
+        let (mode, code, msg) = match m {
+            TMode::Echo => (0, 0, String::new()),
+            TMode::FailApp(c, s) => (1, *c, s.clone()),
+            _ => return None,
+        };
+        let remote = block_on(TCborApp { p: p.clone(), mode, code, msg: msg.clone() }.run_on_client());
+        let direct = block_on(t_cbor_app(p.clone(), mode, code, msg));
+        return Some((show_app_res(&remote), show_app_res(&direct)));
+    }
+    let (mode, kind, msg) = match m {
+        TMode::Echo => (0, 0, String::new()),
+        TMode::Fail(k, s) => (1, *k, s.clone()),
+        _ => return None,
+    };
+    let (remote, direct) = typed_both(fn_name, p, mode, kind, &msg)?;
+    Some((show_typed_res(&remote), show_typed_res(&direct)))
+}
+
+fn op_ser<C>(e: ServerFnError<C>) -> String
+where
+    C: std::fmt::Debug + Display + FromStr + PartialEq + 'static,
+{
+    let Some((bytes, back)) = guard(|| {
+        let b = e.ser();
+        let back = ServerFnError::<C>::de(b.clone());
+        (b, back)
+    }) else {
+        return "panic ## fail panic".into();
+    };
+    let v = if custom_law(&e) && back != e { "fail error-roundtrip" } else { "ok" };
+    format!("{} {} ## {}", hex(&bytes), show_err(&back), v)
+}
+
+fn op_de<C>(b: Vec<u8>) -> String
+where
+    C: std::fmt::Debug + Display + FromStr + 'static,
+{
+    match guard(|| ServerFnError::<C>::de(Bytes::from(b))) {
+        Some(e) => format!("{} ## ok", show_err(&e)),
+        None => "panic ## fail panic".into(),
+    }
+}
+
+fn op_decerr<C>(s: &str) -> String
+where
+    C: std::fmt::Debug + Display + FromStr + 'static,
+{
+    match guard(|| ServerFnUrlError::<ServerFnError<C>>::decode_err(s)) {
+        Some(e) => format!("{} ## ok", show_err(&e)),
+        None => "panic ## fail panic".into(),
+    }
+}
+
+fn last_pair(u: &url::Url, key: &str) -> Option<String> {
+    u.query_pairs().filter(|(k, _)| k == key).last().map(|(_, v)| v.into_owned())
+}
+
+fn op_tourl<C>(e: ServerFnError<C>, base: &str, path: &str) -> String
+where
+    C: std::fmt::Debug + Display + FromStr + PartialEq + Clone + 'static,
+{
+    let law = custom_law(&e);
+    let Some(r) = guard(|| ServerFnUrlError::new(path, e.clone()).to_url(base)) else {
+        return "panic ## fail panic".into();
+    };
+    let Ok(u) = r else { return "parse-error ## ok".into() };
+    let s = u.to_string();
+    // independent reading of the URL: the url crate's own parser, last occurrence of each key
+    let parsed = url::Url::parse(&s).ok();
+    let errv = parsed.as_ref().and_then(|u| last_pair(u, "__err"));
+    let pathv = parsed.as_ref().and_then(|u| last_pair(u, "__path"));
+    let Some(back) = guard(|| errv.as_deref().map(ServerFnUrlError::<ServerFnError<C>>::decode_err)) else {
+        return "panic ## fail panic".into();
+    };
+    let good = (!law || back.as_ref() == Some(&e)) && pathv.as_deref() == Some(path);
+    format!(
+        "{} {} {} ## {}",
+        hex(s.as_bytes()),
+        back.as_ref().map(show_err).unwrap_or("none".into()),
+        pathv.map(|p| hex(p.as_bytes())).unwrap_or("none".into()),
+        if good { "ok" } else { "fail url-roundtrip" }
+    )
+}
+
+fn other_pairs(u: &url::Url) -> Vec<(String, String)> {
+    u.query_pairs()
+        .filter(|(k, _)| k != "__path" && k != "__err")
+        .map(|(k, v)| (k.into_owned(), v.into_owned()))
+        .collect()
+}
+
+fn op_strip(s: String) -> String {
+    let mut out = s.clone();
+    if guard(|| ServerFnUrlError::<ServerFnError>::strip_error_info(&mut out)).is_none() {
+        return "panic ## fail panic".into();
+    }
+    let good = match (url::Url::parse(&s), url::Url::parse(&out)) {
+        (Ok(a), Ok(b)) => {
+            other_pairs(&a) == b.query_pairs().map(|(k, v)| (k.into_owned(), v.into_owned())).collect::<Vec<_>>()
+                && a[..url::Position::AfterPath] == b[..url::Position::AfterPath]
+                && a.fragment() == b.fragment()
+        }
+        (Err(_), _) => out == s,
+        _ => false,
+    };
+    format!("{} ## {}", hex(out.as_bytes()), if good { "ok" } else { "fail strip" })
+}
+
+fn op(line: &str) -> String {
+    let w: Vec<&str> = line.split_whitespace().collect();
+    match w.as_slice() {
+        ["case", n] => match n.rsplit_once('-') {
+            Some((_, tag)) if !tag.is_empty() && tag.chars().all(|c| c.is_ascii_alphabetic()) => {
+                format!("case {n} tags={tag}")
+            }
+            _ => format!("case {n}"),
+        },
+        ["ser", ty, variant, mh] => {
+            let Some(m) = unhex_str(mh) else { return "bad-op".into() };
+            match *ty {
+                "n" => mk_n(variant, m).map(op_ser).unwrap_or("bad-op".into()),
+                "c" => mk_c(variant, m).map(op_ser).unwrap_or("bad-op".into()),
+                _ => "bad-op".into(),
+            }
+        }
+        ["de", ty, bh] => {
+            let Some(b) = unhex(bh) else { return "bad-op".into() };
+            match *ty {
+                "n" => op_de::<NoCustomError>(b),
+                "c" => op_de::<Cust>(b),
+                _ => "bad-op".into(),
+            }
+        }
+        ["tourl", ty, baseh, pathh, variant, mh] => {
+            let (Some(base), Some(path), Some(m)) = (unhex_str(baseh), unhex_str(pathh), unhex_str(mh)) else {
+                return "bad-op".into();
+            };
+            match *ty {
+                "n" => mk_n(variant, m).map(|e| op_tourl(e, &base, &path)).unwrap_or("bad-op".into()),
+                "c" => mk_c(variant, m).map(|e| op_tourl(e, &base, &path)).unwrap_or("bad-op".into()),
+                _ => "bad-op".into(),
+            }
+        }
+        ["decerr", ty, sh] => {
+            let Some(s) = unhex_str(sh) else { return "bad-op".into() };
+            match *ty {
+                "n" => op_decerr::<NoCustomError>(&s),
+                "c" => op_decerr::<Cust>(&s),
+                _ => "bad-op".into(),
+            }
+        }
+        ["strip", uh] => match unhex_str(uh) {
+            Some(s) => op_strip(s),
+            None => "bad-op".into(),
+        },
+        ["call", f, ah] => {
+            let Some(a) = unhex(ah) else { return "bad-op".into() };
+            let Some(direct) = hex_direct(f, a.clone()) else { return "bad-op".into() };
+            match guard(|| hex_remote(f, a)) {
+                Some(Some(remote)) => {
+                    let v = if remote == direct { "ok" } else { "fail pipeline" };
+                    format!("{} ## {}", show_hex_res(&remote), v)
+                }
+                _ => "panic ## fail panic".into(),
+            }
+        }
+        ["tcall", f, rest @ ..] if rest.len() >= 2 => {
+            if !(TYPED.contains(f) || *f == "t_cbor_app") {
+                return "bad-op".into();
+            }
+            let Some((p, m)) = parse_tmode(f, rest) else { return "bad-op".into() };
+            match guard(|| run_typed(f, &p, &m)) {
+                Some(Some((remote, direct))) => {
+                    let cls = if SLOT_MISMATCH.contains(f) { "slot-mismatch" } else { "pipeline" };
+                    let v = if remote == direct { "ok".to_string() } else { format!("fail {cls}") };
+                    format!("{remote} ## {v}")
+                }
+                Some(None) => "bad-op".into(),
+                None => "panic ## fail panic".into(),
+            }
+        }
+        ["canned", f, st, bh, ah] => {
+            let (Ok(status), Some(b), Some(a)) = (st.parse::<u16>(), unhex(bh), unhex(ah)) else {
+                return "bad-op".into();
+            };
+            if hex_direct(f, vec![]).is_none() {
+                return "bad-op".into();
+            }
+            let b2 = b.clone();
+            let r = guard(move || {
+                TRANSPORT.with(|t| t.borrow_mut().canned = Some((status, b2)));
+                hex_remote(f, a)
+            });
+            // the rule, evaluated independently: 400..=599 -> the error decoder, anything else -> the output decoder
+            let expect: Result<Raw, ServerFnError> = if (400..=599).contains(&status) {
+                Err(ServerFnError::de(Bytes::from(b)))
+            } else {
+                plain_unhex(&b).map(Raw).ok_or(ServerFnError::Deserialization("bad hex".into()))
+            };
+            match r {
+                Some(Some(r)) => {
+                    let v = if r == expect { "ok" } else { "fail status-rule" };
+                    format!("{} ## {}", show_hex_res(&r), v)
+                }
+                _ => "panic ## fail panic".into(),
+            }
+        }
+        ["rawreq", f, ms, qh, bh] => {
+            let (Ok(method), Some(b)) = (Method::from_str(ms), unhex(bh)) else { return "bad-op".into() };
+            if hex_direct(f, vec![]).is_none() || !["GET", "POST", "PUT", "PATCH", "DELETE"].contains(ms) {
+                return "bad-op".into();
+            }
+            let uri = if *qh == "none" {
+                format!("/api/{f}")
+            } else {
+                let Some(q) = unhex_str(qh) else { return "bad-op".into() };
+                format!("/api/{f}?{q}")
+            };
+            let Ok(req) = Request::builder().method(method).uri(uri).body(Bytes::from(b)) else {
+                return "bad-op".into();
+            };
+            match guard(|| {
+                block_on(async {
+                    let res = dispatch(req).await;
+                    (res.status().as_u16(), collect_body(res.into_body()).await)
+                })
+            }) {
+                Some((status, chunks)) => {
+                    let body: Vec<u8> = chunks.into_iter().flat_map(|c| c.unwrap_or_else(|e| e).to_vec()).collect();
+                    let good = status == 200
+                        || status == 400
+                        || (status == 500 && ServerFnError::<NoCustomError>::de(Bytes::from(body.clone())).ser() == body);
+                    format!("{status} {} ## {}", hex(&body), if good { "ok" } else { "fail server-response" })
+                }
+                None => "panic ## fail panic".into(),
+            }
+        }
+        ["corrupth", f, side, spec, ah] => {
+            let (Some(m), Some(a)) = (parse_mut(spec), unhex(ah)) else { return "bad-op".into() };
+            if hex_direct(f, vec![]).is_none() || !["req", "res"].contains(side) {
+                return "bad-op".into();
+            }
+            let side = side.to_string();
+            match guard(move || {
+                TRANSPORT.with(|t| {
+                    let mut t = t.borrow_mut();
+                    if side == "req" {
+                        t.req_mut = Some(m)
+                    } else {
+                        t.res_mut = Some(m)
+                    }
+                });
+                hex_remote(f, a)
+            }) {
+                Some(Some(r)) => format!("{} ## ok", show_hex_res(&r)),
+                _ => "panic ## fail panic".into(),
+            }
+        }
+        ["corrupt", f, side, spec, rest @ ..] if rest.len() >= 2 => {
+            let Some(m) = parse_mut(spec) else { return "bad-op".into() };
+            if !(TYPED.contains(f) || *f == "t_cbor_app") || !["req", "res"].contains(side) {
+                return "bad-op".into();
+            }
+            let Some((p, tm)) = parse_tmode(f, rest) else { return "bad-op".into() };
+            let side = side.to_string();
+            match guard(move || {
+                TRANSPORT.with(|t| {
+                    let mut t = t.borrow_mut();
+                    if side == "req" {
+                        t.req_mut = Some(m)
+                    } else {
+                        t.res_mut = Some(m)
+                    }
+                });
+                run_typed(f, &p, &tm)
+            }) {
+                // any Ok(..) or Err(declared error type) is acceptable; only a panic is a failure
+                Some(Some(_)) => "done ## ok".into(),
+                Some(None) => "bad-op".into(),
+                None => "done ## fail panic".into(),
+            }
+        }
+        ["stream", kind, ch] => {
+            let chunks: Option<Vec<Vec<u8>>> =
+                if *ch == "none" { Some(vec![]) } else { ch.split(',').map(unhex).collect() };
+            let Some(chunks) = chunks else { return "bad-op".into() };
+            let whole: Vec<u8> = chunks.concat();
+            match *kind {
+                "text" => {
+                    let Some(texts) =
+                        chunks.iter().map(|c| String::from_utf8(c.clone()).ok()).collect::<Option<Vec<String>>>()
+                    else {
+                        return "bad-op".into();
+                    };
+                    let t2 = texts.clone();
+                    let Some(remote) = guard(move || {
+                        block_on(TextEcho { input: TextStream::from(futures::stream::iter(t2)) }.run_on_client())
+                            .map(items_text)
+                    }) else {
+                        return "panic ## fail panic".into();
+                    };
+                    let direct = block_on(text_echo(TextStream::from(futures::stream::iter(texts)))).map(items_text);
+                    match (remote, direct) {
+                        (Ok(r), Ok(d)) => {
+                            let cat = |v: &[Result<Vec<u8>, String>]| -> Option<Vec<u8>> {
+                                v.iter().map(|i| i.clone().ok()).collect::<Option<Vec<_>>>().map(|x| x.concat())
+                            };
+                            let good = cat(&r).is_some() && cat(&r) == cat(&d) && cat(&d) == Some(whole);
+                            format!(
+                                "{} ## {}",
+                                show_items(&r),
+                                if good { "ok" } else { "fail text-stream-split-scalar" }
+                            )
+                        }
+                        (Err(e), _) => format!("err {} ## fail pipeline", show_err(&e)),
+                        (_, Err(e)) => format!("direct-err {} ## fail pipeline", show_err(&e)),
+                    }
+                }
+                "bytes" => {
+                    let c2: Vec<Bytes> = chunks.iter().map(|c| Bytes::from(c.clone())).collect();
+                    let Some(remote) = guard(move || {
+                        block_on(async {
+                            let arg = BytesEcho(Mutex::new(Box::pin(futures::stream::iter(c2))));
+                            match arg.run_on_client().await {
+                                Ok(s) => Ok(s.into_inner().collect::<Vec<_>>().await),
+                                Err(e) => Err(e),
+                            }
+                        })
+                    }) else {
+                        return "panic ## fail panic".into();
+                    };
+                    match remote {
+                        Ok(items) => {
+                            let items: Vec<Result<Vec<u8>, String>> = items
+                                .into_iter()
+                                .map(|i| i.map(|b| b.to_vec()).map_err(|e| format!("raw:{}", hex(&e))))
+                                .collect();
+                            let cat: Option<Vec<u8>> =
+                                items.iter().map(|i| i.clone().ok()).collect::<Option<Vec<_>>>().map(|x| x.concat());
+                            let good = cat == Some(whole);
+                            format!("{} ## {}", show_items(&items), if good { "ok" } else { "fail pipeline" })
+                        }
+                        Err(e) => format!("err {} ## fail pipeline", show_err(&e)),
+                    }
+                }
+                _ => "bad-op".into(),
+            }
+        }
+        _ => "bad-op".into(),
+    }
+}
+
+// ------------------------------------------------------------------ generator
+
+/// characters whose `{:?}` rendering the model reproduces (all of ASCII plus a checked list)
+const DEBUG_SAFE: &[char] = &[
+    'é', 'ß', '¡', 'Ω', 'ж', '日', '本', '😀', '\u{fffd}', '\u{a0}', '\u{ad}', '\u{301}', '\u{200b}', '\u{202e}',
+    '\u{2028}', '\u{feff}', '\u{e000}', '\u{ffff}', '\u{10ffff}', '\u{80}', '\u{7ff}', '\u{800}', '\u{10000}',
+];
+const HOSTILE_ASCII: &[char] = &[
+    '|', '|', '\n', '\r', '\t', '\0', '"', '\'', '\\', '=', '&', '%', '+', '#', '?', ' ', '/', ':', ';', '<', '>',
+    '{', '}', '\u{7f}', '\u{1}', '\u{1b}', '!', '~', '*', '-', '_', '.',
+];
+const WORDS: &[&str] = &[
+    "ServerError", "WrappedServerFn", "Args", "Request", "Deserialization|", "MissingArg|x", "Unit Type Displayed",
+    "error", "%7C", "%25", "__err", "__path", "a=b&c=d", "null", "0", "é|é",
+];
+
+fn gen_text(r: &mut Rng, max: usize, debug_safe: bool) -> String {
+    let n = r.below(max + 1);
+    let mut s = String::new();
+    for _ in 0..n {
+        match r.below(8) {
+            0 | 1 => s.push(*r.pick(HOSTILE_ASCII)),
+            2 => s.push(*r.pick(DEBUG_SAFE)),
+            3 => s.push_str(*r.pick(WORDS)),
+            4 => s.push(char::from_u32(r.below(0x80) as u32).unwrap()),
+            5 if !debug_safe => s.push(char::from_u32(r.below(0x110000) as u32).unwrap_or('\u{d7ff}')),
+            _ => s.push(*r.pick(&['a', 'b', 'z', 'A', '0', '9'])),
+        }
+    }
+    s
+}
+
+fn gen_variant(r: &mut Rng) -> &'static str {
+    VARIANTS[r.below(VARIANTS.len())]
+}
+
+const PREFIXES: &[&str] = &[
+    "WrappedServerFn", "Registration", "Request", "Response", "ServerError", "MiddlewareError", "Deserialization",
+    "Serialization", "Args", "MissingArg",
+];
+
+/// hostile error bodies: right and almost-right prefixes, missing separator, invalid UTF-8
+fn gen_err_bytes(r: &mut Rng) -> Vec<u8> {
+    let mut v: Vec<u8> = match r.below(10) {
+        0..=3 => format!("{}|{}", r.pick(PREFIXES), gen_text(r, 6, true)).into_bytes(),
+        4 => format!("{}{}", r.pick(PREFIXES), gen_text(r, 3, true)).into_bytes(),
+        5 => {
+            let p = r.pick(PREFIXES);
+            let p = match r.below(4) {
+                0 => p.to_lowercase(),
+                1 => format!(" {p}"),
+                2 => format!("{p} "),
+                _ => p[..p.len() - 1].to_string(),
+            };
+            format!("{p}|{}", gen_text(r, 4, true)).into_bytes()
+        }
+        6 => gen_text(r, 6, true).into_bytes(),
+        7 => format!("WrappedServerFn|!{}", gen_text(r, 4, true)).into_bytes(),
+        8 => vec![],
+        _ => format!("|{}", gen_text(r, 4, true)).into_bytes(),
+    };
+    if r.chance(1, 4) {
+        // break the UTF-8: insert a stray byte or cut inside a scalar
+        const BAD: &[&[u8]] = &[&[0xff], &[0xc3], &[0x80], &[0xe2, 0x82], &[0xed, 0xa0, 0x80], &[0xf0, 0x9f, 0x98], &[0xc0, 0xaf], &[0xf4, 0x90, 0x80, 0x80]];
+        let at = r.below(v.len() + 1);
+        let bad = r.pick(BAD);
+        v.splice(at..at, bad.iter().copied());
+    }
+    v
+}
+
+const BASES: &[&str] = &[
+    "http://localhost/",
+    "http://localhost:3000/page",
+    "https://example.com/a/b?x=1",
+    "https://example.com/a/b?x=1&y=%C3%A9+z",
+    "http://h/p?",
+    "http://h/p?x=1#frag",
+    "http://h/p#frag",
+    "http://h/p?__err=stale&__path=%2Fold",
+    "http://h/p?q=a%26b&__err=U2VydmVyRXJyb3J8b2xk",
+    "/relative",
+    "/",
+    "",
+    "not a url",
+];
+
+fn gen_b64ish(r: &mut Rng) -> String {
+    use base64::{engine::general_purpose::URL_SAFE, Engine as _};
+    let good = URL_SAFE.encode(gen_err_bytes(r));
+    let mut s: Vec<char> = good.chars().collect();
+    match r.below(8) {
+        0 | 1 => {}
+        2 => {
+            if !s.is_empty() {
+                let at = r.below(s.len());
+                s[at] = *r.pick(&['=', '+', '/', ' ', '\n', '*', 'é', 'A', '_', '-']);
+            }
+        }
+        3 => {
+            let k = r.below(s.len() + 1);
+            s.truncate(k);
+        }
+        4 => s.push(*r.pick(&['=', 'A', '\n', 'B', '/'])),
+        5 => {
+            while s.last() == Some(&'=') {
+                s.pop();
+            }
+        }
+        6 => {
+            // non-canonical trailing bits
+            if let Some(i) = s.iter().rposition(|c| *c != '=') {
+                s[i] = *r.pick(&['B', 'R', 'x', '9', '_']);
+            }
+        }
+        _ => {
+            let at = r.below(s.len() + 1);
+            s.insert(at, *r.pick(&['=', '%', 'Q']));
+        }
+    }
+    s.into_iter().collect()
+}
+
+fn gen_query(r: &mut Rng) -> String {
+    const QA: &[&str] = &[
+        "x", "y", "1", "a%20b", "%C3%A9", "%FF", "%2B", "+", "~", "/", ".", "*", "-", "_", "%", "%4", "=", "&", "__err",
+        "__path", "__errx", "=__err", "%5F%5Ferr", "q",
+    ];
+    let n = r.below(7);
+    (0..n).map(|_| *r.pick(QA)).collect()
+}
+
+fn gen_inner(r: &mut Rng) -> Inner {
+    Inner {
+        n: *r.pick(&[0, 1, -1, i64::MAX, i64::MIN, 42, -9_007_199_254_740_993]),
+        name: gen_text(r, 3, false),
+        flag: r.chance(1, 2),
+    }
+}
+
+/// `url_safe`: keep to the values on which serde_qs round-trips (no empty sequence, no `Some("")`),
+/// except for one case in sixteen that lands in the two known classes on purpose
+fn gen_payload(r: &mut Rng, url_safe: bool) -> Payload {
+    let url_safe = url_safe && !r.chance(1, 16);
+    let lo = if url_safe { 1 } else { 0 };
+    Payload {
+        id: *r.pick(&[0, 1, u64::MAX, 1 << 53, (1 << 53) + 1, 255, 256]),
+        small: *r.pick(&[0, -1, i8::MIN, i8::MAX, 7]),
+        text: gen_text(r, 6, false),
+        opt: if r.chance(1, 3) {
+            None
+        } else {
+            let t = gen_text(r, 3, false);
+            Some(if url_safe && t.is_empty() { "o".into() } else { t })
+        },
+        list: (0..r.range(lo, 2)).map(|_| gen_inner(r)).collect(),
+        nums: (0..r.range(lo, 3)).map(|_| *r.pick(&[0, 1, u32::MAX, 65536])).collect(),
+        nested: gen_inner(r),
+    }
+}
+
+fn gen_hex_arg(r: &mut Rng) -> Vec<u8> {
+    match r.below(4) {
+        0 => {
+            let mut v = vec![b'E', r.below(12) as u8];
+            v.extend(gen_text(r, 5, false).into_bytes());
+            v
+        }
+        1 => (0..r.below(20)).map(|_| r.below(256) as u8).collect(),
+        2 => gen_text(r, 6, false).into_bytes(),
+        _ => gen_err_bytes(r),
+    }
+}
+
+fn gen_mut(r: &mut Rng) -> String {
+    match r.below(3) {
+        0 => format!("t{}", r.below(400)),
+        1 => format!("f{}", r.below(4000)),
+        _ => format!("a{}", r.below(256)),
+    }
+}
+
+fn is_url_fn(f: &str) -> bool {
+    f.contains("url")
+}
+
+fn gen_tcall(r: &mut Rng, f: &str) -> String {
+    let p = gen_payload(r, is_url_fn(f));
+    let pj = hex(serde_json::to_string(&p).unwrap().as_bytes());
+    if f == "t_cbor_app" {
+        if r.chance(1, 2) {
+            format!("{f} echo {pj}")
+        } else {
+            let e = AppErr::Custom { code: *r.pick(&[0, -1, i32::MAX, i32::MIN, 404]), msg: gen_text(r, 5, false) };
+            format!("{f} failapp {pj} {}", hex(serde_json::to_string(&e).unwrap().as_bytes()))
+        }
+    } else if r.chance(1, 2) {
+        format!("{f} echo {pj}")
+    } else {
+        // WrappedServerError(NoCustomError) carries no message
+        format!("{f} fail {pj} {} {}", gen_variant(r), hex(gen_text(r, 6, false).as_bytes()))
+    }
+}
+
+fn gen(seed: u64, n: usize, path: &str) -> std::io::Result<()> {
+    use std::io::Write;
+    let mut r = Rng::new(seed);
+    let mut f = std::io::BufWriter::new(std::fs::File::create(path)?);
+    const HEXFNS: &[&str] = &["hx_post", "hx_patch", "hx_put"];
+    for i in 0..n {
+        let ty = if r.chance(1, 3) { "c" } else { "n" };
+        match r.below(20) {
+            0 | 1 | 2 => {
+                writeln!(f, "case {i}-errfmt")?;
+                writeln!(f, "ser {ty} {} {}", gen_variant(&mut r), hex(gen_text(&mut r, 8, ty == "n").as_bytes()))?
+            }
+            3 | 4 | 5 => {
+                writeln!(f, "case {i}-errdecode")?;
+                writeln!(f, "de {ty} {}", hex(&gen_err_bytes(&mut r)))?
+            }
+            6 | 7 => {
+                writeln!(f, "case {i}-url")?;
+                let base = *r.pick(BASES);
+                let path = if r.chance(1, 2) { "/api/some_fn1234567".to_string() } else { gen_text(&mut r, 4, false) };
+                writeln!(
+                    f,
+                    "tourl {ty} {} {} {} {}",
+                    hex(base.as_bytes()),
+                    hex(path.as_bytes()),
+                    gen_variant(&mut r),
+                    hex(gen_text(&mut r, 8, ty == "n").as_bytes())
+                )?
+            }
+            8 => {
+                writeln!(f, "case {i}-urldecode")?;
+                writeln!(f, "decerr {ty} {}", hex(gen_b64ish(&mut r).as_bytes()))?
+            }
+            9 => {
+                writeln!(f, "case {i}-strip")?;
+                let u = match r.below(6) {
+                    0 => "/relative?__err=x".to_string(),
+                    1 => format!("http://h/p?{}#f", gen_query(&mut r)),
+                    2 => "http://h/p".to_string(),
+                    _ => format!("http://h/p?{}", gen_query(&mut r)),
+                };
+                writeln!(f, "strip {}", hex(u.as_bytes()))?
+            }
+            10 | 11 => {
+                writeln!(f, "case {i}-pipeline")?;
+                writeln!(f, "call {} {}", r.pick(HEXFNS), hex(&gen_hex_arg(&mut r)))?
+            }
+            12 | 13 | 14 => {
+                let fname = if r.chance(1, 12) { "t_cbor_app" } else { *r.pick(TYPED) };
+                writeln!(f, "case {i}-typed")?;
+                writeln!(f, "tcall {}", gen_tcall(&mut r, fname))?
+            }
+            15 => {
+                writeln!(f, "case {i}-status")?;
+                let status = match r.below(4) {
+                    0 => *r.pick(&[200, 201, 204, 299, 300, 302, 399, 400, 404, 422, 499, 500, 503, 599, 600, 100, 0]),
+                    _ => r.below(700),
+                };
+                let body = match r.below(3) {
+                    0 => plain_hex(&gen_hex_arg(&mut r)).into_bytes(),
+                    1 => gen_err_bytes(&mut r),
+                    _ => gen_text(&mut r, 4, true).into_bytes(),
+                };
+                writeln!(f, "canned {} {status} {} {}", r.pick(HEXFNS), hex(&body), hex(&gen_hex_arg(&mut r)))?
+            }
+            16 => {
+                writeln!(f, "case {i}-rawreq")?;
+                let body = match r.below(4) {
+                    0 => gen_text(&mut r, 4, true).into_bytes(),
+                    1 => {
+                        let mut h = plain_hex(&gen_hex_arg(&mut r));
+                        if r.chance(1, 3) {
+                            h.pop();
+                        }
+                        h.into_bytes()
+                    }
+                    _ => plain_hex(&gen_hex_arg(&mut r)).into_bytes(),
+                };
+                let q = match r.below(3) {
+                    0 => "none".to_string(),
+                    _ => hex(plain_hex(&gen_hex_arg(&mut r)).as_bytes()),
+                };
+                writeln!(
+                    f,
+                    "rawreq {} {} {} {}",
+                    r.pick(HEXFNS),
+                    r.pick(&["GET", "POST", "POST", "PUT", "PATCH", "DELETE"]),
+                    q,
+                    hex(&body)
+                )?
+            }
+            17 => {
+                writeln!(f, "case {i}-corrupt")?;
+                writeln!(
+                    f,
+                    "corrupth {} {} {} {}",
+                    r.pick(HEXFNS),
+                    r.pick(&["req", "res"]),
+                    gen_mut(&mut r),
+                    hex(&gen_hex_arg(&mut r))
+                )?
+            }
+            18 => {
+                writeln!(f, "case {i}-corrupt")?;
+                let fname = if r.chance(1, 12) { "t_cbor_app" } else { *r.pick(TYPED) };
+                let side = *r.pick(&["req", "res"]);
+                let m = gen_mut(&mut r);
+                writeln!(f, "corrupt {fname} {side} {m} {}", gen_tcall(&mut r, fname).split_once(' ').unwrap().1)?
+            }
+            _ => {
+                writeln!(f, "case {i}-stream")?;
+                let k = r.below(4);
+                let chunks: Vec<String> = (0..k)
+                    .map(|_| {
+                        let n = r.below(14);
+                        let mut s = String::new();
+                        for _ in 0..n {
+                            match r.below(5) {
+                                0 => s.push(*r.pick(&['é', '日', '😀', 'ß'])),
+                                _ => s.push(*r.pick(&['a', 'b', ' ', '|', '\n'])),
+                            }
+                        }
+                        s
+                    })
+                    .collect();
+                let kind = if r.chance(1, 3) { "bytes" } else { "text" };
+                if chunks.is_empty() {
+                    writeln!(f, "stream {kind} none")?
+                } else {
+                    writeln!(
+                        f,
+                        "stream {kind} {}",
+                        chunks.iter().map(|c| hex(c.as_bytes())).collect::<Vec<_>>().join(",")
+                    )?
+                }
+            }
+        }
+    }
+    f.flush()
+}
+
+fn main() {
+    match parse_cli() {
+        Cmd::Gen { seed, n, ops, .. } => gen(seed, n, &ops).unwrap(),
+        Cmd::Run { ops, out } => {
+            quiet_panics();
+            run_ops(&ops, &out, op).unwrap()
+        }
+    }
+}
